@@ -6,7 +6,7 @@
       attempt := <name> ( manerr <cls> | man <id> <dataLen> <nlayers> {<dig> <size>}* <hascfg 0|1> [<dig> <size>] )
                  <nplans> {plan}* <nsteps> {step}*
       plan    := pfail | plist <n> {<dig> <start> <len>}*
-      step    := cancel | timeout | rel <k> fail <cls> | rel <k> body <npieces> {<hex>}* <eof|err>
+      step    := cancel | timeout | rel <k> fail <cls> | rel <k> body <npieces> {<hex>}* <eof|err|stall>
       -> per attempt "<outcome> n=<waiting requests before each step> link=<manifest id|none> files=<hex,...> stage=<hex,...>", joined by " | "
     push <nlayers> {postErr|cached|putOk|putErr}* <nsched> {k}* <manifestOk 0|1>
       -> "<events> res=<ok|err>" | bad-schedule
@@ -79,6 +79,7 @@ def pEnd : TP BodyEnd := do
   match (← tok) with
   | "eof" => pure .eof
   | "err" => pure .err
+  | "stall" => pure .stall
   | _ => failure
 
 def pStep : TP Step := do
